@@ -25,6 +25,8 @@ def run(ctx):
     with Pool(seeds=hash_seeds(ctx), init="engines.gwork:init", recycle=8000) as pool:
         outs = pool.map("engines.gwork:eval_c12", items)
         real = pool.map("engines.c12:real_params_route", list(range(len(REAL_CASES))))
+        tasks = [d for d in descs if d["nodes"][d["root"]].get("cls") in ("job", "jobout", "job_old", "jobout_old")]
+        routs = pool.map("engines.gwork:eval_c12_real", [{"G": d} for d in tasks])
     done, sigs = 0, set()
     for it, o in zip(items, outs):
         done += o["done"]
@@ -36,6 +38,13 @@ def run(ctx):
             if p["kind"] == "identifier-differs":
                 key += ":" + id_cause(it["G"])
             res.violation(key, f"route {p['route']}: {p.get('diff') or p.get('error') or p} for {json.dumps(it['G'])[:600]}", {"G": it["G"], "route": it["route"], "problem": p})
+    nreal = 0
+    for d, o in zip(tasks, routs):
+        nreal += o["done"]
+        done += o["done"]
+        for p in o["problems"]:
+            res.violation(f"real-run:{p['kind']}" + (":" + classify(p["diff"]) if p.get("diff") else ""),
+                          f"real params.json + run(): {p.get('diff') or p.get('error') or p} for {json.dumps(d)[:600]}", {"G": d, "route": "real", "problem": p})
     for i, o in enumerate(real):
         done += 1
         for p in o:
@@ -48,7 +57,7 @@ def run(ctx):
                 "extracted from the real objects and compared (canonical relabelling) with the description, identifier recomputed; plus real "
                 "GENERATE_ONLY params.json files read back by run() with tags; distinct_nontrivial = distinct canonical signatures",
         "samples": clip_samples([descs[7], descs[len(descs) // 2]]),
-        "exhaustive": not capped, "descriptions": len(descs), "routes": ROUTES, "real_params_cases": len(REAL_CASES),
+        "exhaustive": not capped, "descriptions": len(descs), "routes": ROUTES + ["real params.json -> run()"], "real_params_cases": len(REAL_CASES), "real_run_descriptions": nreal,
     }
     res.assumptions = ["data paths (DataPath / SerializedPath copying) are not part of the universe"]
     return res
@@ -150,7 +159,10 @@ def real_params_route(i):
 def replay(ctx, payload):
     from . import gwork
     gwork.init()
-    if "G" in payload:
+    if "G" in payload and payload.get("route") == "real":
+        print(json.dumps(payload["G"]))
+        print(gwork.eval_c12_real({"G": payload["G"]}))
+    elif "G" in payload:
         print(json.dumps(payload["G"]))
         print(gwork.eval_c12({"G": payload["G"], "route": payload["route"]}))
     else:
